@@ -341,7 +341,6 @@ pub struct SnapEntry {
 pub type SoftLimit = Option<(NonZeroUsize, Script)>;
 
 pub trait Container {
-    fn kind(&self) -> Kind;
     /// `None`: this container has no such variant / no limits. Sync variants are executed
     /// right here and return an already completed future.
     fn lock(&self, var: Variant, key: u32, limit: SoftLimit) -> Option<LockFut>;
@@ -473,10 +472,6 @@ macro_rules! map_common {
 }
 
 impl Container for Wrap<Hm> {
-    fn kind(&self) -> Kind {
-        Kind::HashMap
-    }
-
     map_common!(HmG, HmB, HmOG, HmO);
 
     fn snapshot(&self) -> Option<Vec<SnapEntry>> {
@@ -503,10 +498,6 @@ impl Container for Wrap<Hm> {
 }
 
 impl Container for Wrap<Lru> {
-    fn kind(&self) -> Kind {
-        Kind::Lru
-    }
-
     map_common!(LruG, LruB, LruOG, LruO);
 
     fn snapshot(&self) -> Option<Vec<SnapEntry>> {
@@ -543,10 +534,6 @@ impl Container for Wrap<Lru> {
 }
 
 impl Container for Wrap<Pool> {
-    fn kind(&self) -> Kind {
-        Kind::Pool
-    }
-
     fn lock(&self, var: Variant, key: u32, limit: SoftLimit) -> Option<LockFut> {
         if limit.is_some() {
             return None;
